@@ -91,6 +91,19 @@ def stepStore (st : St) (toks : List String) : Option (St × String) :=
         some (st, if pfx == "storelk" then ans ++ " R+R-" else ans)
       | none => none
     else none
+  -- typed drop (`drop_smoc/tmoc/fmoc/stmoc`): the kind is checked first, under the same write section; a mismatch is
+  -- an error WITHOUT effect, otherwise it is `drop` (glue: guard + the modelled call)
+  | [pfx, "dropk", k, i] =>
+    if pfx == "store" || pfx == "storelk" then
+      let lk := if pfx == "storelk" then " W+W-" else ""      -- one write section, whatever the outcome
+      match k.toNat?, i.toNat? with
+      | some k, some i =>
+        match valueAt st i with
+        | some v =>
+          if v.kind = k then (let r := step st (.drop i); some (r.1, showOut r.2 ++ lk)) else some (st, "err-kind" ++ lk)
+        | none => some (st, "err-notfound" ++ lk)
+      | _, _ => none
+    else none
   | "store" :: rest =>
     match storeCall rest with
     | some c => let r := step st c; some (r.1, showOut r.2)
